@@ -99,6 +99,21 @@ func validStream(t *rapid.T, compressed bool) ([]HNode, int64) {
 
 var hostileVersions = []int64{-1, math.MinInt64, 0, 1, 2, 3, 4, 1000, math.MaxInt64}
 
+// hostileKeyPrefixes: what a compressed stream may carry in front of a key - the uvarint "shared prefix length" is read
+// from untrusted bytes: single bytes, lengths beyond any key, 2^31, 2^32, 2^62, 2^63 (negative as int), the maximum,
+// an overflowing and a truncated varint
+var hostileKeyPrefixes = [][]byte{
+	{0x7f}, {0xff}, {0x80}, {0x05}, {0x01}, {0x00},
+	{0x80, 0x80, 0x80, 0x80, 0x08},                                     // 2^31
+	{0x80, 0x80, 0x80, 0x80, 0x10},                                     // 2^32
+	{0x80, 0x80, 0x80, 0x80, 0x80, 0x80, 0x80, 0x80, 0x40},             // 2^62
+	{0x80, 0x80, 0x80, 0x80, 0x80, 0x80, 0x80, 0x80, 0x80, 0x01},       // 2^63
+	{0xff, 0xff, 0xff, 0xff, 0xff, 0xff, 0xff, 0xff, 0xff, 0x01},       // 2^64-1
+	{0xff, 0xff, 0xff, 0xff, 0xff, 0xff, 0xff, 0xff, 0x7f},             // 2^63-1
+	{0x80, 0x80, 0x80, 0x80, 0x80, 0x80, 0x80, 0x80, 0x80, 0x80, 0x01}, // overflow
+	{0x80, 0x80},                                                       // truncated
+}
+
 func genHostile(t *rapid.T) HostileCase {
 	c := HostileCase{Prop: "C10", Kind: "hostile_import", Compressed: rapid.Bool().Draw(t, "compressed"), SkipFast: rapid.Bool().Draw(t, "skip"),
 		Commit: rapid.IntRange(0, 3).Draw(t, "commit") > 0}
@@ -112,6 +127,8 @@ func genHostile(t *rapid.T) HostileCase {
 				h.KeyNil = true
 			case 1:
 				h.Key = []byte{}
+			case 2:
+				h.Key = append(append([]byte{}, rapid.SampledFrom(hostileKeyPrefixes).Draw(t, "hkp")...), rapid.SliceOfN(rapid.Byte(), 0, 3).Draw(t, "hkt")...)
 			default:
 				h.Key = rapid.SliceOfN(rapid.Byte(), 1, 4).Draw(t, "key")
 			}
@@ -171,7 +188,7 @@ func genHostile(t *rapid.T) HostileCase {
 			c.Mutations = append(c.Mutations, "nilnode")
 		case 11:
 			// hostile delta prefix (compressed) / arbitrary key bytes (plain)
-			nodes[i].Key = append([]byte{byte(rapid.SampledFrom([]int{0x7f, 0xff, 0x80, 0x05}).Draw(t, "pfx"))}, nodes[i].Key...)
+			nodes[i].Key = append(append([]byte{}, rapid.SampledFrom(hostileKeyPrefixes).Draw(t, "pfx")...), nodes[i].Key...)
 			c.Mutations = append(c.Mutations, "keyprefix")
 		case 12:
 			c.ImportVer = rapid.SampledFrom([]int64{0, 1, ver - 1, ver + 1}).Draw(t, "miv")
@@ -445,6 +462,8 @@ func FuzzImporter(f *testing.F) {
 	f.Add([]byte{0, 1, 1, 0, 1, 'a', 1, 'x', 1, 0, 1, 'b', 1, 'y', 1, 1, 0, 0, 1})
 	f.Add([]byte{1, 2, 1, 0, 2, 0, 'a', 1, 'x', 1, 0, 2, 1, 'b', 1, 'y', 0, 1, 0, 0, 1})
 	f.Add([]byte{0, 1, 0, 0xff, 1, 'a', 0, 0x80})
+	f.Add([]byte{1, 1, 0, 1, 11, 0xff, 0xff, 0xff, 0xff, 0xff, 0xff, 0xff, 0xff, 0xff, 0x01, 'a', 1, 'x'}) // compressed, hostile shared-prefix length
+	f.Add([]byte{1, 1, 0, 1, 2, 0, 'a', 1, 'x', 0, 1, 10, 0x80, 0x80, 0x80, 0x80, 0x80, 0x80, 0x80, 0x80, 0x80, 0x01, 1, 'y'})
 	f.Fuzz(func(t *testing.T, data []byte) {
 		if len(data) < 3 || len(data) > 400 {
 			return
@@ -476,7 +495,7 @@ func FuzzImporter(f *testing.F) {
 			case kl == 0xfe:
 				h.Nil = true
 			default:
-				h.Key = take(int(kl % 6))
+				h.Key = take(int(kl % 12)) // up to 11 bytes: room for a 10-byte uvarint in front of a compressed key
 			}
 			switch vl := next(); {
 			case vl == 0xff:
